@@ -163,6 +163,11 @@ func vxPattern(p string) string {
 		return vxChipDefs[0].Prefix
 	case "upper":
 		return strings.ToUpper(vxChipDefs[0].Prefix)
+	case "class":
+		// the chip name with its first '-' written as the escape class \D (a non-digit): still names exactly that chip
+		return strings.Replace(vxChipDefs[0].Full, "-", `\D`, 1)
+	case "anchored-class":
+		return "^" + strings.Replace(vxChipDefs[0].Full, "-", `\W`, 1) + "$"
 	case "unknown":
 		return "f71882fg"
 	case "badregex-glob":
@@ -192,6 +197,9 @@ func vxRefBind(shapes []vxShape, sel vxSel) vxBound {
 		return vxBound{} // not a valid regular expression: names no device
 	}
 	pat := strings.TrimSuffix(strings.TrimPrefix(strings.ToLower(vxPattern(sel.Pattern)), "^"), "$")
+	if sel.Pattern == "class" || sel.Pattern == "anchored-class" {
+		pat = vxChipDefs[0].Full // the class stands for the '-' of the name (see vxPattern)
+	}
 	hit := -1
 	for i := range shapes {
 		if strings.Contains(vxChipDefs[i].Full, pat) {
@@ -672,6 +680,10 @@ func vxSelectors() []vxSel {
 	for _, p := range []string{"badregex-glob", "badregex-paren", "badregex-bracket"} {
 		r = append(r, vxSel{Kind: "fan", Pattern: p, By: "index", N: 1}, vxSel{Kind: "sensor", Pattern: p, N: 1})
 	}
+	// valid regular expressions that use upper-case escape classes
+	for _, p := range []string{"class", "anchored-class"} {
+		r = append(r, vxSel{Kind: "fan", Pattern: p, By: "index", N: 1}, vxSel{Kind: "fan", Pattern: p, By: "rpmChannel", N: 2}, vxSel{Kind: "sensor", Pattern: p, N: 1}, vxSel{Kind: "sensor", Pattern: p, N: 2})
+	}
 	return r
 }
 
@@ -855,7 +867,7 @@ func TestVX_C17bus(t *testing.T) {
 	defer func() { vxChipDefs = saved }()
 	shape := vxShape{Fans: []int{1, 2}, Temps: [3]int{1, 1, 0}}
 	sels := []vxSel{}
-	for _, p := range []string{"full", "anchored"} {
+	for _, p := range []string{"full", "anchored", "class", "anchored-class"} {
 		sels = append(sels, vxSel{Kind: "sensor", Pattern: p, N: 1}, vxSel{Kind: "sensor", Pattern: p, N: 2}, vxSel{Kind: "sensor", Pattern: p, N: 3},
 			vxSel{Kind: "fan", Pattern: p, By: "rpmChannel", N: 2}, vxSel{Kind: "fan", Pattern: p, By: "index", N: 1}, vxSel{Kind: "fan", Pattern: p, By: "rpmChannel", N: 3})
 	}
